@@ -29,7 +29,7 @@ def run(tier):
         import corpus
         for p, d, name in corpus.fixture_pairs():
             for entry in ("validate", "compileThenValidate", "validateCompiledCfg"):
-                cases.append({"entry": entry, "chan": rnd.choice(["unbuf", "buf"]), "profile": p, "data": d,
+                cases.append({"entry": entry, "chan": rnd.choice(["unbuf", "buf", "bufSmall"]), "profile": p, "data": d,
                               "pclass": "ok", "dclass": "unknown"})
     obs = proto.run_cases("c11", cases)
     lines, byid = proto.to_trace(obs, "C11")
